@@ -500,7 +500,7 @@ def run_conc(pid, tier, seed, replay):
         jobs.append((["conc", "--kind", k, "--set", "swarms", "--max-runs", 600 if quick else 20000, "--random-runs", 300], "MemcLin",
                      "swarms-%s.ndjson" % k, "3 clients issuing the same command", None))
         # (the thorough tier: four jobs of 40 programs with seeds of their own - the exploration is single-threaded)
-        for sp in range(1 if quick else 4):
+        for sp in range(1 if quick else (2 if pid == "C16" else 4)):
             jobs.append((["conc", "--kind", k, "--set", "sampled", "--count", 12 if quick else 40, "--seed", seed + 1000 * sp, "--max-runs", 300 if quick else 3000, "--random-runs", 100],
                          "MemcLin", "sampled-%s-%d.ndjson" % (k, sp), "sampled 2x2 / 3-client programs #%d" % sp, None))
     # the store engine on its own (Cache trait object, below MemcStore's key lock): get / set / CAS-set / delete
@@ -519,8 +519,10 @@ def run_conc(pid, tier, seed, replay):
         # many OS threads hammering the store for a while, then a flush: every command returns (watchdog)
         jobs.append((["conc-hammer", "--threads", 8, "--ops", 20000 if quick else 100000, "--rounds", 2 if quick else 6], "MemcLin",
                      "hammer.ndjson", "8 OS threads x 20000 commands, then flush", None))
-        jobs.append((["conc", "--kind", "C16", "--set", "eviction", "--count", 20 if quick else 200, "--seed", seed, "--max-runs", 300 if quick else 2000, "--random-runs", 100],
-                     "MemcLin", "eviction.ndjson", "stores under eviction pressure, flushes", None))
+        # (the thorough tier: four jobs of 25 programs with seeds of their own - the exploration is single-threaded)
+        for ep in range(1 if quick else 4):
+            jobs.append((["conc", "--kind", "C16", "--set", "eviction", "--count", 20 if quick else 25, "--seed", seed + 500 * ep, "--max-runs", 300 if quick else 2000, "--random-runs", 100],
+                         "MemcLin", "eviction-%d.ndjson" % ep, "stores under eviction pressure, flushes #%d" % ep, None))
 
     def one(j):
         return job_trace(j[0], j[1], j[2], d, j[3], lin=True)
